@@ -37,6 +37,8 @@ class Model(SOCModel):
         self.cvx_constr = []
         self.ip_constr = []
         self.det_constr = []
+        self.pupdate = True
+        self.dupdate = True
 
     def st(self, constr):
 
